@@ -196,5 +196,5 @@ MANIFEST = {
             "renderer/recogniser (text equality and part-wise read-back).",
     "note": "Trusts harness/refmodel.py + harness/bumpref.py as a faithful transcription of the README rules; nothing is "
             "asserted when the CLI declines to bump (declines are counted in coverage.classes).",
-    "technique": "property-based testing (Hypothesis, grammar-decoded cases) against a reference model",
+    "technique": "property-based testing (Hypothesis, grammar-decoded cases) against a reference model; plus coverage-guided fuzzing (atheris/libFuzzer) of the same byte decoder and oracle",
 }
